@@ -487,13 +487,22 @@ class QMI_Context:
         # Start message router.
         self._message_router.start()
 
-        # Start TCP server if a TCP server port is specified in the configuration.
-        ctxcfg = self.get_context_config()
-        if ctxcfg.tcp_server_port is not None:
-            self._message_router.start_tcp_server(ctxcfg.tcp_server_port)
+        try:
+            # Start TCP server if a TCP server port is specified in the configuration.
+            ctxcfg = self.get_context_config()
+            if ctxcfg.tcp_server_port is not None:
+                self._message_router.start_tcp_server(ctxcfg.tcp_server_port)
 
-        # The UDP responder is mandatory.
-        self._message_router.start_udp_responder(self.DEFAULT_UDP_RESPONDER_PORT)
+            # The UDP responder is mandatory.
+            self._message_router.start_udp_responder(self.DEFAULT_UDP_RESPONDER_PORT)
+        except BaseException:
+            # Failed start: leave nothing behind. Close the sockets opened so far, stop the
+            # router thread and the internal RPC objects. This context can not be started again.
+            self._used = True
+            self._message_router.stop()
+            self._stop_rpc_objects()
+            qmi.object_registry.unregister(self._oid)
+            raise
 
         # Mark that we're now active.
         self._active = True
@@ -526,6 +535,21 @@ class QMI_Context:
 
         self._message_router.stop()
 
+        self._stop_rpc_objects()
+
+        # RPC calls that are still waiting for a reply can not be answered anymore: fail them.
+        for handler in self._message_router.get_message_handlers():
+            if isinstance(handler, QMI_RpcFuture):
+                handler.handle_message(QMI_ErrorReplyMessage(
+                    handler.rpc_object_address, handler.address, "", "Context {} stopped".format(self.name)))
+
+        # Update number of active contexts.
+        _active_context_counter.dec()
+
+        qmi.object_registry.unregister(self._oid)
+
+    def _stop_rpc_objects(self) -> None:
+        """Mark the context inactive and stop all RPC objects it still manages."""
         with self._rpc_object_map_lock:
 
             # Mark that we're now inactive.
@@ -543,17 +567,6 @@ class QMI_Context:
         for manager in managers:
             self.unregister_message_handler(manager)
             manager.stop()
-
-        # RPC calls that are still waiting for a reply can not be answered anymore: fail them.
-        for handler in self._message_router.get_message_handlers():
-            if isinstance(handler, QMI_RpcFuture):
-                handler.handle_message(QMI_ErrorReplyMessage(
-                    handler.rpc_object_address, handler.address, "", "Context {} stopped".format(self.name)))
-
-        # Update number of active contexts.
-        _active_context_counter.dec()
-
-        qmi.object_registry.unregister(self._oid)
 
     def shutdown_requested(self) -> bool:
         """Return True if the context has received a shutdown request via RPC.
